@@ -81,10 +81,47 @@ func (fs *FileSystem) Store(bom *sbom.Document, opts *StoreOptions) error {
 		return fmt.Errorf("there is already an entry for the specified document (and NoClobber = true)")
 	}
 
-	if err := os.WriteFile(filepath.Join(fs.Options.Path, filename), out, os.FileMode(0o644)); err != nil {
+	if err := writeFileAtomic(fs.Options.Path, filename, out); err != nil {
 		return fmt.Errorf("writing data to disk: %w", err)
 	}
 
+	return nil
+}
+
+// writeFileAtomic writes data to dir/name so that a crash at any point leaves
+// either the previous entry or the complete new one: the data is written to a
+// temporary file in the same directory, flushed to disk and then renamed over
+// the final name.
+func writeFileAtomic(dir, name string, data []byte) error {
+	tmp, err := os.CreateTemp(dir, name+".tmp-*")
+	if err != nil {
+		return err
+	}
+	tmpName := tmp.Name()
+	cleanup := func() {
+		tmp.Close()        //nolint:errcheck,gosec // already failing
+		os.Remove(tmpName) //nolint:errcheck,gosec // best effort
+	}
+	if _, err := tmp.Write(data); err != nil {
+		cleanup()
+		return err
+	}
+	if err := tmp.Chmod(os.FileMode(0o644)); err != nil {
+		cleanup()
+		return err
+	}
+	if err := tmp.Sync(); err != nil {
+		cleanup()
+		return err
+	}
+	if err := tmp.Close(); err != nil {
+		os.Remove(tmpName) //nolint:errcheck,gosec // best effort
+		return err
+	}
+	if err := os.Rename(tmpName, filepath.Join(dir, name)); err != nil {
+		os.Remove(tmpName) //nolint:errcheck,gosec // best effort
+		return err
+	}
 	return nil
 }
 
